@@ -57,7 +57,7 @@ static const int KD_SCHED[16] = {KD_TALL1, KD_TALL2, KD_SQUARE, KD_BLOCK, KD_OFF
                                  KD_YREL, KD_EDGE, KD_AFFOFF, KD_DUPROW};
 
 typedef struct {
-  pc_case c; int kind, nlv, rank, tries, lgx, lgy, reuse, hist, exk, kmax; long jz; double cond; char tag[40];
+  pc_case c; int kind, nlv, rank, tries, lgx, lgy, reuse, hist, exk, kmax; long jz; double cond; char tag[72];
   matrix *Xorig, *Xnorig;         /* per-column unit class: the same predictors in their original units */
 } c4_prob;
 
@@ -223,13 +223,21 @@ static int draw_class(c4_prob *q, vrng *r, long idx, int kind, c4_prob *shape_li
         break; }
       case KD_UNITS: c->xs = (int[]){1, 2, 4, 5}[vr_int(r, 0, 3)]; if(c->p < 2) c->p = 2; break;
       case KD_EXACT:
-        sub = (int)(round % 3);                                /* 0 / 1: orthogonal groups (exact up to rounding), 2: two-level design (exactly zero residual) */
+        /* 0 / 1: orthogonal groups (exact up to rounding), 2: two-level design in units of 1 (exactly zero residual -> null LVs),
+         * 3: the same design in other units (x s, or autoscaled): the residual after the exact fit is rounding residue, the next latent
+         *    variables are asked of a response that has nothing left,
+         * 4: two-level design whose response carries an interaction that is not among the predictors: after the first latent variable the
+         *    residual is LARGE and exactly orthogonal to every predictor (no covariance left although the response is not exhausted) */
+        sub = (int)(round % 6);                                 /* 5: as 4 with two responses, the one with the largest variance being the pure interaction */
         if(sub < 2){
           c->n = (int)vr_int(r, 10, 30); c->p = (int)vr_int(r, 4, 8); c->noise = 0;
           c->xs = sub == 0 ? 0 : 1; c->ys = (int)vr_int(r, 0, 4); c->ny = (round % 2 == 0) ? 1 : 2;
+        } else if(sub >= 4){
+          c->n = 16; c->p = (int[]){4, 5, 6, 8, 9, 10}[vr_int(r, 0, 5)]; c->noise = 2;
+          c->xs = (int[]){-1, 0, 1}[vr_int(r, 0, 2)]; c->ys = 0; c->ny = sub == 4 ? 1 : 2;
         } else {
           c->n = vr_int(r, 0, 1) ? 8 : 16; c->p = (int)vr_int(r, 3, c->n == 8 ? 6 : 10); c->noise = 0;
-          c->xs = (int)vr_int(r, -1, 0); c->ys = 0; c->ny = 1;
+          c->xs = (int)vr_int(r, -1, sub == 3 ? 1 : 0); c->ys = 0; c->ny = 1;
         }
         lvmin = 2;
         break;
@@ -263,8 +271,15 @@ static int draw_class(c4_prob *q, vrng *r, long idx, int kind, c4_prob *shape_li
         if(q->exk > c->p) q->exk = c->p;
         snprintf(q->tag, sizeof(q->tag), "K8:exact-at-%d", q->exk);
       } else {
-        c4_two_level(c, r);
-        q->exk = 1; strcpy(q->tag, "K8:exact-zero-residual");
+        c4_two_level(c, r, sub == 4 ? 1 : sub == 5 ? 2 : 0);
+        /* other units than 1: every entry +-s with s not a power of two (options -1 / 0), or the sample standard deviation of a +-1 column (option 1) */
+        double su = 1.0;
+        if(sub == 3 && c->xs <= 0) su = pow(10.0, -2.0 + 4.0 * vr_unif(r));
+        if(sub >= 4 && c->xs <= 0 && vr_int(r, 0, 1)) su = pow(10.0, -2.0 + 4.0 * vr_unif(r));
+        if(su != 1.0){ c4_scale(c->X, su); c4_scale(c->Xn, su); }
+        q->exk = sub >= 4 ? 0 : 1;
+        strcpy(q->tag, sub == 2 ? "K8:exact-zero-residual" : sub == 3 ? "K8:exact-then-rounding-residue" : (su == 1.0 && c->xs <= 0) ? "K8:residual-orthogonal-to-X" : "K8:residual-orthogonal-to-X,other-units");
+        if(sub == 5) strcat(q->tag, ",start-response");
       }
     } else gen_default(c, r);
 
